@@ -766,6 +766,20 @@ def _joined_segments(ck, fn, w, src, resolution, pl, pr, facts):
             flat.append(("seq", x))
     elts = [y for k, y in flat if k == "elt"]
     seqs = [y for k, y in flat if k == "seq"]
+    if sorted(map(T.key, elts)) != sorted(map(T.key, [res0, res1])) and not seqs and len(set(elts)) == len(elts) \
+            and all(y in (res0, res1) for y in elts):
+        # the filter `s != AlignmentSegment.empty` written as a loop over (seg1, seg2) with an `if`: on this path a resolved segment
+        # was left out because the path's own test found it empty
+        omitted = [r for r in (res0, res1) if r not in elts]
+        def says_empty(k0, tv0):
+            # eq(<Segment>.empty, X) known true / its negation known false, or X.empty known true
+            if not any(x0[0] == "attr" and x0[2] == "empty" for x0 in T.subterms(k0)):
+                return False
+            return (k0[0] == "eq" and tv0 is True) or (k0[0] == "ne" and tv0 is False) or (k0[0] == "attr" and tv0 is True)
+        justified = sum(1 for k0, tv0 in facts.items() if says_empty(k0, tv0)) >= len(omitted) > 0
+        if justified:
+            ck.ok("C08.6", "AlignmentResultRow.resolve:only-resolved", w, "the resolved segments, an empty one left out by its own test")
+            return
     if sorted(map(T.key, elts)) != sorted(map(T.key, [res0, res1])):
         ck.violation("C08.6", "AlignmentResultRow.resolve:only-resolved", w, "the joined row is built around the two segments that "
                      "went through conflict resolution", found=T.show(src)[:200], required="[seg1, seg2] of pair.resolveConflict()")
@@ -894,6 +908,13 @@ def _joined_row(ck):
             ck.ok("C08.6", "AlignmentResultRow.resolve:only-resolved", w, "joined segments are the resolver's output (chained and "
                   "pairwise resolved)")
             continue
+        empty_list = segs is not None and any(x[0] in ("list", "tuple") and not x[1] for x in T.subterms(segs)) and \
+            not any(x[0] in ("list", "tuple") and x[1] for x in T.subterms(segs))
+        n_empty_facts = sum(1 for k0, tv0 in pa.facts.items()
+                            if any(x0[0] == "attr" and x0[2] == "empty" for x0 in T.subterms(k0)) and
+                            ((k0[0] == "eq" and tv0 is True) or (k0[0] == "ne" and tv0 is False) or (k0[0] == "attr" and tv0 is True)))
+        if not resolves and empty_list and n_empty_facts >= 2:
+            continue            # both resolved segments were found empty by the path's own tests: the filter written as a loop
         if not resolves:
             ck.violation("C08.6", "AlignmentResultRow.resolve:segments", w,
                          "segments of the joined row do not come from conflict resolution of the parts",
